@@ -23,11 +23,13 @@ VARIABLES
   \* @type: Int;
   num,
   \* @type: Int;
-  den
+  den,
+  \* @type: Bool;
+  ok        \* (sharp dependence only) the last step did not move the parameter further beyond a limit it had reached
 
 Inside(a, b) == Mn * b <= S * a /\ S * a <= Mx * b
 
-IndInit == num \in Int /\ den \in Int /\ den > 0 /\ Inside(num, den)
+IndInit == num \in Int /\ den \in Int /\ den > 0 /\ Inside(num, den) /\ ok = TRUE
 IndInv == den > 0 /\ Inside(num, den)
 
 \* distances to the limits, over (S * den)
@@ -38,15 +40,38 @@ NextMult ==
   \E p \in 0..S, n \in 0..S :
      /\ num' = S * S * num + Du * p - Dl * n
      /\ den' = S * S * den
+     /\ UNCHANGED ok
 
 NextScaled ==
   \E p \in 0..R, n \in 0..R :
      /\ num' = S * R * num + Du * p - Dl * n
      /\ den' = S * R * den
+     /\ UNCHANGED ok
 
 \* ((Mx/S - v) / (R/S))^2 * (p/S) = Du^2 p / (den^2 R^2 S)
 NextScaledPow2 ==
   \E p \in 0..R, n \in 0..R :
      /\ num' = S * R * R * den * num + Du * Du * p - Dl * Dl * n
      /\ den' = S * R * R * den * den
+     /\ UNCHANGED ok
+
+(***************************************************************************)
+(* Sharp dependence, from ANY parameter value (inside or outside the range) *)
+(* and ANY non-negative magnitudes p/S, n/S:                               *)
+(*    w' = w + H(Max - w) p - H(w - Min) n,   H(x) = 1 if x > 0 else 0     *)
+(* never moves the parameter further beyond a limit it has reached:        *)
+(*    w >= Max  =>  w' <= w        and        w <= Min  =>  w' >= w        *)
+(* apalache-mc check --init=SharpInit --inv=SharpInv --next=NextSharp --length=1      *)
+(***************************************************************************)
+SharpInit == num \in Int /\ den \in Int /\ den > 0 /\ ok = TRUE
+SharpInv == den > 0 /\ ok
+NextSharp ==
+  \E p \in Nat, n \in Nat :
+     LET up == IF Du > 0 THEN p ELSE 0
+         dn == IF Dl > 0 THEN n ELSE 0
+         nn == S * num + den * (up - dn)            \* w' = nn / (S * den)
+     IN /\ num' = nn
+        /\ den' = S * den
+        /\ ok' = (/\ (Du <= 0 => nn <= S * num)     \* at / beyond Max: not increased   (nn/(S den) <= num/den)
+                  /\ (Dl <= 0 => nn >= S * num))    \* at / beyond Min: not decreased
 =============================================================================
